@@ -24,7 +24,7 @@ def _tasks0(tier):
     from props.combine_parents import parent_tasks as combine_parents
     from props.chef_kernels import cook_tasks, init_tasks
     for t in [StrainWorker(3), StrainWorker(2), ByBoxes(), ByBinfile(), UserPfileKnife(True)] + colander_parents(tier) + \
-            combine_parents(tier) + cook_tasks(tier) + init_tasks(tier)[:2]:
+            combine_parents(tier) + cook_tasks(tier) + [t_ for t_ in init_tasks(tier) if type(t_).__name__ in ("KeptNames", "KeptIds")]:
         t.prop = "C14"
         out.append(t)
     return out
